@@ -30,6 +30,7 @@ import (
 	"verifharness/c20"
 	"verifharness/cab"
 	"verifharness/cms"
+	"verifharness/deb"
 	"verifharness/e2e"
 	"verifharness/hx"
 	"verifharness/jar"
@@ -52,6 +53,7 @@ var handlers = map[string]func([]string) string{
 	"JAR":   jar.Handle,
 	"APK":   apkb.Handle,
 	"APKV":  apkv.Handle,
+	"DEB":   deb.Handle,
 	"ZIPRW": ziprw.Handle,
 	"CAB":   cab.Handle,
 	"PS":    ps.Handle,
@@ -163,6 +165,7 @@ func init() {
 		if p == "C01" || p == "C02" || p == "C03" || p == "C08" {
 			gens[p] = append(gens[p], forProp(p, e2e.Gen))
 			gens[p] = append(gens[p], forProp(p, xsig.Gen))
+			gens[p] = append(gens[p], forProp(p, deb.Gen))
 		}
 	}
 }
